@@ -53,7 +53,17 @@ func (W *vWorld) disarm(tag string) {
 	if !vObserversOn {
 		return
 	}
-	vcheck(tag+"/events-emitted-as-documented", vCb.got == vCb.want)
+	want := vCb.want
+	if vOnlyEvt >= 0 { // a single observer is registered: only its event type can be counted
+		w := [7]int{want.create, want.remEnt, want.add, want.rem, want.set, want.addRel, want.remRel}
+		for k := range w {
+			if k != vOnlyEvt {
+				w[k] = 0
+			}
+		}
+		want = vEvents{w[0], w[1], w[2], w[3], w[4], w[5], w[6]}
+	}
+	vcheck(tag+"/events-emitted-as-documented", vCb.got == want)
 	vCb.armed = false
 }
 
@@ -143,11 +153,33 @@ func (W *vWorld) onEvent(evt EventType, e Entity) {
 func (W *vWorld) observeAll() {
 	vObserversOn = true
 	vCb = vCbState{}
-	for _, evt := range []EventType{OnCreateEntity, OnRemoveEntity, OnAddComponents, OnRemoveComponents, OnSetComponents, OnAddRelations, OnRemoveRelations} {
+	for k, evt := range []EventType{OnCreateEntity, OnRemoveEntity, OnAddComponents, OnRemoveComponents, OnSetComponents, OnAddRelations, OnRemoveRelations} {
 		evt := evt
+		if vOnlyEvt >= 0 && k != vOnlyEvt {
+			continue
+		}
 		Observe(evt).Do(func(e Entity) { W.onEvent(evt, e) }).Register(W.w)
 	}
 }
+
+// vOnlyEvt >= 0: only the observer of that event type (index into the list in observeAll) is
+// registered — the emission decisions of an operation must not depend on the other observers
+var vOnlyEvt = -1
+
+// every single-entity operation with exactly one observer registered (C08: independence of
+// the set of registered observers; the library takes shortcuts per event type without observers)
+func vStepSingleObserver(rel bool, pickMax int) {
+	vOnlyEvt = vPick("only-observer", 7)
+	op := []int{0, 1, 2, 3, 4, 5, 6, 7}[vPick("op", 8)]
+	vPickMax = pickMax
+	vStepObserved(rel, op)
+	vPickMax = 0
+	vOnlyEvt = -1
+}
+func VerifC08_SingleObserverPlain()  { vStepSingleObserver(false, 3) }
+func VerifC08_SingleObserverRel()    { vStepSingleObserver(true, 3) }
+func VerifC08T_SingleObserverPlain() { vStepSingleObserver(false, 6) }
+func VerifC08T_SingleObserverRel()   { vStepSingleObserver(true, 6) }
 
 func vStepObserved(rel bool, op int) {
 	vMode = 1
